@@ -103,6 +103,19 @@ class PosixModel(object):
         return True
 
 
+class NamelessModel(PosixModel):
+    """the same rules, but one observance has no abbreviation (its VTIMEZONE component carries no TZNAME)"""
+    def __init__(self, pz, years, nameless):
+        PosixModel.__init__(self, pz, years)
+        self.nameless = nameless
+
+    def at(self, ts):
+        off, name, isdst = self.pz.at(to_dt(ts))
+        return (off, None if name == self.nameless else name, isdst)
+
+    raw_at = at
+
+
 def norm_type(t):
     """tzif types are (off, isdst, abbr); posix at() gives (off, abbr, isdst) -> (off, abbr, isdst)"""
     if isinstance(t[1], bool):
@@ -192,6 +205,17 @@ def iter_zones(ctx, tz, relativedelta, rng, tier, with_real=True, n_posix=None, 
                 ctx.violation('tzlocal-raised', {'zone': s}, repr(e))
                 continue
             yield 'tzlocal(TZ=%s)' % s, 'tzlocal', z, model, (lambda old=old: set_process_tz(old))
+    if want('tzical'):
+        # TZNAME is optional per component: a component without it has no abbreviation (and must not inherit one)
+        for nameless in ('EST', 'EDT'):
+            for order in ('SD', 'DS'):
+                pz = PZ.PosixZone('EST', -18000, 'EDT', -14400, ('M', 3, 2, 0), 7200, ('M', 11, 1, 0), 7200)
+                try:
+                    text = tzzoo.vtimezone_text(pz, first_year=2000, order=order).replace('TZNAME:%s\r\n' % nameless, '')
+                    z = tz.tzical(io.StringIO(text)).get()
+                    yield 'tzical(no TZNAME for %s,%s)' % (nameless, order), 'tzical', z, NamelessModel(pz, years, nameless), nothing
+                except Exception as e:
+                    ctx.violation('tzical-rejected', {'zone': 'no TZNAME for %s' % nameless}, '%s: %s' % (type(e).__name__, e))
     if want('tzlocal'):
         for s, off, name in (('UTC', 0, 'UTC'), ('XYZ-5:30', 19800, 'XYZ'), ('EST5', -18000, 'EST')):
             old = os.environ.get('TZ')
